@@ -4,6 +4,7 @@ from __future__ import annotations
 import ast
 
 from ..contracts import *  # noqa: F401,F403
+from ..anchors import UNIT_CREATION_ENTRY_POINTS, unit_creator
 from ..effects import CallGraph, check_ownership, inventory
 from ..loader import AnalysisError, src_of
 from ..report import Result
@@ -109,8 +110,8 @@ def run(prog, tier) -> Result:
 
     # R17.3 immutability of what memoised results depend on
     for state, owners in (
-            ("_equiv", {"QuantityMeta._make_unit": {"="}, "QuantityMeta._make_ref_unit": {"="}}),
-            ("_qty_cls", {"QuantityMeta._make_unit": {"="}}),
+            ("_equiv", dict(UNIT_CREATION_ENTRY_POINTS)),
+            ("_qty_cls", dict(UNIT_CREATION_ENTRY_POINTS)),
             ("_items", {"Term.__init__": {"="}}),
             ("_ref_unit", {"QuantityMeta.__new__": {"="}}),
             ("_quantum", {"QuantityMeta.__new__": {"="}}),
@@ -121,12 +122,12 @@ def run(prog, tier) -> Result:
 
     # R17.4 monotone directories
     sym_names = set()
-    mk = prog.method("QuantityMeta", "_make_unit")
+    mk = unit_creator(prog)
     for w in writes:
-        if w.func == "QuantityMeta._make_unit" and w.kind == "item-store" and not w.base_src.startswith("cls."):
+        if w.func == mk.qualname and w.kind == "item-store" and not w.base_src.startswith("cls."):
             sym_names.add(w.state)
     for sn in sym_names:
-        check_ownership(res, "R17.4", writes, sn, {"QuantityMeta._make_unit": {"[]="}}, cg)
+        check_ownership(res, "R17.4", writes, sn, dict(UNIT_CREATION_ENTRY_POINTS), cg)
     # insert-if-absent: the store into the symbol directory sits in the handler of the failed lookup
     guarded = False
     for n in ast.walk(mk.node):
@@ -141,7 +142,7 @@ def run(prog, tier) -> Result:
                             guarded = True
             if n.orelse and not any(isinstance(x, ast.Raise) for b in n.orelse for x in ast.walk(b)):
                 guarded = False
-    res.ob("R17.4", "QuantityMeta._make_unit", "symbol directory is insert-if-absent", guarded,
+    res.ob("R17.4", mk.qualname, "symbol directory is insert-if-absent", guarded,
            "the store is not confined to the KeyError handler of a lookup of the same key (with a raise in else)",
            sig="symbol directory entry may be overwritten")
     for state, owners in (("_item_def_map", {"DefinedItemRegistry.__init__": {"="}, "DefinedItemRegistry.register_item": {"[]="}}),
